@@ -1,8 +1,9 @@
 (* C05 - batching: labelled transition system of /repo/batch/batch.go, Func.Invoke
    (DESIGN.md Appendix A.2).  Executable definitions only.
 
-   One batchContext and one Func (groups of different Funcs live under different map keys and never
-   interact).  Labels are the atomic sections of Invoke: the first bctx.mu section (LJoin), the creator's
+   One batchContext, any number of Funcs (a Func is identified by a number; its MaxSize is the entry of
+   [maxsizes] at that number, 0 = no limit); pendingBatchGroups is keyed by funcShard = (Func, shard).
+   Labels are the atomic sections of Invoke: the first bctx.mu section (LJoin), the creator's
    select (LWake), the second bctx.mu section (LUnpublish), the ctx.Err() test followed by safeInvoke
    (LRun, with what Many did) or by bg.err = ctx.Err() (LCancel), close(doneCh) (LDone), the final read
    of bg.err / bg.result[index] (LReturn); LCtxCancel is the cancellation of the creator's context.
@@ -20,6 +21,7 @@ Inductive ret := RVal (v : nat) | RErr (e : berr) | RIndexPanic.
 Inductive phase := Open | Woken | Unpub | Ran | Cancelled.
 
 Record group := mkGroup {
+  g_fid : nat;                 (* the Func the group belongs to *)
   g_shard : nat;
   g_args : list nat;           (* caller ids, in append order: bg.args *)
   g_closed : bool;             (* maxSizeCh closed *)
@@ -32,18 +34,19 @@ Record group := mkGroup {
 }.
 
 Record caller := mkCaller {
-  c_arg : nat; c_shard : nat; c_gid : nat; c_index : nat; c_creator : bool; c_ret : option ret
+  c_fid : nat; c_arg : nat; c_shard : nat; c_gid : nat; c_index : nat; c_creator : bool; c_ret : option ret
 }.
 
 Record state := mkState {
-  maxsize : nat;                     (* Func.MaxSize, 0 = no limit *)
-  pending : list (nat * nat);        (* bctx.pendingBatchGroups: shard -> group *)
+  maxsizes : list nat;               (* Func.MaxSize by Func, 0 = no limit *)
+  pending : list (nat * nat * nat);  (* bctx.pendingBatchGroups: (Func, shard) -> group *)
   groups : list group;
   callers : list caller
 }.
 
 Inductive label :=
-| LJoin (argv shard : nat) (cancelled : bool)
+| LJoin (fid argv shard : nat) (cancelled : bool)
+    (* cancelled: state of the caller's own context; it only matters when the caller creates the group *)
 | LCtxCancel (g : nat)
 | LWake (g : nat) (c : cause)
 | LUnpublish (g : nat)
@@ -52,25 +55,29 @@ Inductive label :=
 | LDone (g : nat)
 | LReturn (c : nat).
 
-Fixpoint lookup (k : nat) (l : list (nat * nat)) : option nat :=
+Definition key_eqb (f sh f' sh' : nat) : bool := Nat.eqb f f' && Nat.eqb sh sh'.
+
+Fixpoint lookup (f sh : nat) (l : list (nat * nat * nat)) : option nat :=
   match l with
   | [] => None
-  | (k', v) :: t => if Nat.eqb k k' then Some v else lookup k t
+  | (f', sh', v) :: t => if key_eqb f sh f' sh' then Some v else lookup f sh t
   end.
 
-Fixpoint remove_key (k : nat) (l : list (nat * nat)) : list (nat * nat) :=
+Fixpoint remove_key (f sh : nat) (l : list (nat * nat * nat)) : list (nat * nat * nat) :=
   match l with
   | [] => []
-  | (k', v) :: t => if Nat.eqb k k' then remove_key k t else (k', v) :: remove_key k t
+  | (f', sh', v) :: t => if key_eqb f sh f' sh' then remove_key f sh t else (f', sh', v) :: remove_key f sh t
   end.
 
-Definition init (ms : nat) : state := mkState ms [] [] [].
+Definition init (mss : list nat) : state := mkState mss [] [] [].
+
+Definition msz (s : state) (f : nat) : nat := nth f (maxsizes s) 0.
 
 Definition set_group (s : state) (gi : nat) (g : group) : state :=
-  mkState (maxsize s) (pending s) (upd (groups s) gi g) (callers s).
+  mkState (maxsizes s) (pending s) (upd (groups s) gi g) (callers s).
 
 Definition with_phase (g : group) (p : phase) : group :=
-  mkGroup (g_shard g) (g_args g) (g_closed g) p (g_ctxc g) (g_many g) (g_res g) (g_err g) (g_done g).
+  mkGroup (g_fid g) (g_shard g) (g_args g) (g_closed g) p (g_ctxc g) (g_many g) (g_res g) (g_err g) (g_done g).
 
 (* bctx.mu section 1 hits MaxSize: close(maxSizeCh); delete(pending, fs) *)
 Definition full (ms n : nat) : bool := (0 <? ms) && (n =? ms).
@@ -86,33 +93,33 @@ Definition ret_of (g : group) (i : nat) : ret :=
 
 Definition step (s : state) (l : label) : option state :=
   match l with
-  | LJoin argv sh cancelled =>
+  | LJoin fid argv sh cancelled =>
       let cid := length (callers s) in
-      match lookup sh (pending s) with
+      match lookup fid sh (pending s) with
       | Some gi =>
           match nth_error (groups s) gi with
           | Some g =>
               let index := length (g_args g) in
-              let f := full (maxsize s) (S index) in
-              let g' := mkGroup (g_shard g) (g_args g ++ [cid]) (g_closed g || f) (g_phase g) (g_ctxc g)
+              let f := full (msz s fid) (S index) in
+              let g' := mkGroup (g_fid g) (g_shard g) (g_args g ++ [cid]) (g_closed g || f) (g_phase g) (g_ctxc g)
                                 (g_many g) (g_res g) (g_err g) (g_done g) in
-              Some (mkState (maxsize s)
-                            (if f then remove_key sh (pending s) else pending s)
+              Some (mkState (maxsizes s)
+                            (if f then remove_key fid sh (pending s) else pending s)
                             (upd (groups s) gi g')
-                            (callers s ++ [mkCaller argv sh gi index false None]))
+                            (callers s ++ [mkCaller fid argv sh gi index false None]))
           | None => None
           end
       | None =>
           let gi := length (groups s) in
-          let f := full (maxsize s) 1 in
-          Some (mkState (maxsize s)
-                        (if f then pending s else (sh, gi) :: pending s)
-                        (groups s ++ [mkGroup sh [cid] f Open cancelled None None None false])
-                        (callers s ++ [mkCaller argv sh gi 0 true None]))
+          let f := full (msz s fid) 1 in
+          Some (mkState (maxsizes s)
+                        (if f then pending s else (fid, sh, gi) :: pending s)
+                        (groups s ++ [mkGroup fid sh [cid] f Open cancelled None None None false])
+                        (callers s ++ [mkCaller fid argv sh gi 0 true None]))
       end
   | LCtxCancel gi =>
       match nth_error (groups s) gi with
-      | Some g => Some (set_group s gi (mkGroup (g_shard g) (g_args g) (g_closed g) (g_phase g) true
+      | Some g => Some (set_group s gi (mkGroup (g_fid g) (g_shard g) (g_args g) (g_closed g) (g_phase g) true
                                                 (g_many g) (g_res g) (g_err g) (g_done g)))
       | None => None
       end
@@ -136,11 +143,11 @@ Definition step (s : state) (l : label) : option state :=
       | Some g =>
           match g_phase g with
           | Woken =>
-              let p := match lookup (g_shard g) (pending s) with
-                       | Some gj => if Nat.eqb gj gi then remove_key (g_shard g) (pending s) else pending s
+              let p := match lookup (g_fid g) (g_shard g) (pending s) with
+                       | Some gj => if Nat.eqb gj gi then remove_key (g_fid g) (g_shard g) (pending s) else pending s
                        | None => pending s
                        end in
-              Some (mkState (maxsize s) p (upd (groups s) gi (with_phase g Unpub)) (callers s))
+              Some (mkState (maxsizes s) p (upd (groups s) gi (with_phase g Unpub)) (callers s))
           | _ => None
           end
       | None => None
@@ -157,7 +164,7 @@ Definition step (s : state) (l : label) : option state :=
                 | OErr => (None, Some EUser)
                 | OPanic => (None, Some EPanic)
                 end in
-              Some (set_group s gi (mkGroup (g_shard g) (g_args g) (g_closed g) Ran (g_ctxc g)
+              Some (set_group s gi (mkGroup (g_fid g) (g_shard g) (g_args g) (g_closed g) Ran (g_ctxc g)
                                             (Some (g_args g)) res err false))
           | _ => None
           end
@@ -169,7 +176,7 @@ Definition step (s : state) (l : label) : option state :=
           match g_phase g with
           | Unpub =>
               if g_ctxc g then
-                Some (set_group s gi (mkGroup (g_shard g) (g_args g) (g_closed g) Cancelled (g_ctxc g)
+                Some (set_group s gi (mkGroup (g_fid g) (g_shard g) (g_args g) (g_closed g) Cancelled (g_ctxc g)
                                               None None (Some ECtx) false))
               else None
           | _ => None
@@ -182,7 +189,7 @@ Definition step (s : state) (l : label) : option state :=
           match g_phase g with
           | Ran | Cancelled =>
               if g_done g then None else
-              Some (set_group s gi (mkGroup (g_shard g) (g_args g) (g_closed g) (g_phase g) (g_ctxc g)
+              Some (set_group s gi (mkGroup (g_fid g) (g_shard g) (g_args g) (g_closed g) (g_phase g) (g_ctxc g)
                                             (g_many g) (g_res g) (g_err g) true))
           | _ => None
           end
@@ -197,8 +204,8 @@ Definition step (s : state) (l : label) : option state :=
               match nth_error (groups s) (c_gid c) with
               | Some g =>
                   if g_done g then
-                    Some (mkState (maxsize s) (pending s) (groups s)
-                                  (upd (callers s) ci (mkCaller (c_arg c) (c_shard c) (c_gid c) (c_index c)
+                    Some (mkState (maxsizes s) (pending s) (groups s)
+                                  (upd (callers s) ci (mkCaller (c_fid c) (c_arg c) (c_shard c) (c_gid c) (c_index c)
                                                                 (c_creator c) (Some (ret_of g (c_index c))))))
                   else None
               | None => None
@@ -229,7 +236,7 @@ Definition cause_code (c : cause) : nat :=
 Inductive obs :=
 | ObJoin (gid index : nat) (existed closed : bool)  (* what the hook inside the mutex saw *)
 | ObUnpub (deleted : bool)                          (* the creator found itself still published *)
-| ObMany (args : list nat)                          (* argument values Many was called with *)
+| ObMany (fid : nat) (args : list nat)              (* the Func whose Many was called, and the argument values *)
 | ObRet (r : ret)                                   (* what Invoke returned *)
 | ObNone.
 
@@ -254,24 +261,25 @@ Definition last_caller (s : state) : option caller := nth_error (callers s) (len
 
 Definition obs_ok (s s' : state) (l : label) (o : obs) : bool :=
   match l, o with
-  | LJoin _ _ _, ObJoin gid index existed closed =>
+  | LJoin _ _ _ _, ObJoin gid index existed closed =>
       match last_caller s' with
       | Some c =>
           Nat.eqb (c_gid c) gid && Nat.eqb (c_index c) index && Bool.eqb (negb (c_creator c)) existed &&
           match nth_error (groups s') (c_gid c) with
-          | Some g => Bool.eqb (full (maxsize s') (length (g_args g))) closed
+          | Some g => Bool.eqb (full (msz s' (g_fid g)) (length (g_args g))) closed
           | None => false
           end
       | None => false
       end
   | LUnpublish gi, ObUnpub deleted =>
       match nth_error (groups s) gi with
-      | Some g => Bool.eqb (match lookup (g_shard g) (pending s) with Some gj => Nat.eqb gj gi | None => false end) deleted
+      | Some g => Bool.eqb (match lookup (g_fid g) (g_shard g) (pending s) with Some gj => Nat.eqb gj gi | None => false end) deleted
       | None => false
       end
-  | LRun gi _, ObMany args =>
+  | LRun gi _, ObMany fid args =>
       match nth_error (groups s') gi with
-      | Some g => match g_many g with Some cs => list_eqb (arg_values s' cs) args | None => false end
+      | Some g => Nat.eqb (g_fid g) fid &&
+                  match g_many g with Some cs => list_eqb (arg_values s' cs) args | None => false end
       | None => false
       end
   | LReturn ci, ObRet r =>
@@ -295,7 +303,7 @@ Fixpoint replay (evs : list event) (s : state) (bad : nat) : option state * nat 
   end.
 
 Record case := mk_case {
-  k_maxsize : nat;
+  k_maxsizes : list nat;
   k_events : list event;
   k_all_returned : bool        (* every Invoke returned *)
 }.
@@ -307,7 +315,7 @@ Definition all_returned (s : state) : bool :=
    created/joined, MaxSize roll-over, still-published, arguments seen by Many, return value) differs;
    3 callers that returned *)
 Definition check_case (c : case) : list nat :=
-  match replay (k_events c) (init (k_maxsize c)) 0 with
+  match replay (k_events c) (init (k_maxsizes c)) 0 with
   | (None, _) => [1]
   | (Some s, bad) =>
       (if Nat.eqb bad 0 then [] else [2]) ++
